@@ -977,9 +977,20 @@ func (h *Hashgraph) DecideFame() error {
 							t = yays
 						}
 
+						// The votes are cast by the witnesses of round j-1, so
+						// a decision needs a super-majority of that round's
+						// PeerSet as well as of round j's: when the PeerSet
+						// shrinks between the two rounds, the smaller
+						// threshold alone does not bind the other witnesses of
+						// round j.
+						superMajority := jPeerSet.SuperMajority()
+						if sm := jPrevPeerSet.SuperMajority(); sm > superMajority {
+							superMajority = sm
+						}
+
 						// normal round
 						if math.Mod(float64(diff), COIN_ROUND_FREQ) > 0 {
-							if t >= jPeerSet.SuperMajority() {
+							if t >= superMajority {
 								simProbe("fame.decided", diff)
 								rRoundInfo.SetFame(x, v)
 								setVote(votes, y, x, v)
@@ -989,7 +1000,7 @@ func (h *Hashgraph) DecideFame() error {
 							}
 						} else { // coin round
 							simProbe("fame.coin", t-jPeerSet.SuperMajority())
-							if t >= jPeerSet.SuperMajority() {
+							if t >= superMajority {
 								setVote(votes, y, x, v)
 							} else {
 								setVote(votes, y, x, middleBit(y)) // middle bit of y's hash
